@@ -130,14 +130,48 @@ func runC15(c *Ctx) {
 		if len(ret.Results) != 1 {
 			continue
 		}
-		call, ok := unparen(ret.Results[0]).(*ast.CallExpr)
-		if !ok {
-			continue
+		isProto := func(e ast.Expr) bool {
+			call, ok := unparen(e).(*ast.CallExpr)
+			if !ok {
+				return false
+			}
+			if tv, isT := info.Types[call.Fun]; !isT || !tv.IsType() {
+				return false
+			}
+			n, ok := info.TypeOf(call).(*types.Named)
+			return ok && n.Obj().Name() == "ProtocolError"
 		}
-		if tv, isT := info.Types[call.Fun]; !isT || !tv.IsType() {
-			continue
-		}
-		if n, ok := info.TypeOf(call).(*types.Named); !ok || n.Obj().Name() != "ProtocolError" {
+		if id, isId := unparen(ret.Results[0]).(*ast.Ident); isId {
+			// a local whose every definition is a ProtocolError
+			obj := info.ObjectOf(id)
+			ndef, nproto := 0, 0
+			ast.Inspect(hm.Body(), func(n ast.Node) bool {
+				switch x := n.(type) {
+				case *ast.AssignStmt:
+					for i, l := range x.Lhs {
+						if lid, ok := l.(*ast.Ident); ok && info.ObjectOf(lid) == obj {
+							ndef++
+							if len(x.Rhs) == len(x.Lhs) && isProto(x.Rhs[i]) {
+								nproto++
+							}
+						}
+					}
+				case *ast.ValueSpec:
+					for i, nm := range x.Names {
+						if info.ObjectOf(nm) == obj {
+							ndef++
+							if len(x.Values) == len(x.Names) && isProto(x.Values[i]) {
+								nproto++
+							}
+						}
+					}
+				}
+				return true
+			})
+			if obj == nil || ndef == 0 || ndef != nproto {
+				continue
+			}
+		} else if !isProto(ret.Results[0]) {
 			continue
 		}
 		st, _ := ff.At(ret)
